@@ -1,23 +1,236 @@
 """C21 - fast-group frames only write outputs computed in the same pass.
 
-Thin: runs the dispatcher explorer of harness/c22_dispatcher.py (same state
-space, same real bytecode) and reports the C21 invariant set: frames leave
-user space sterile; re-activation touches exactly the writer command bytes,
-zeroes exactly their working counters, counts exactly the mismatching ones,
-all only in a pass that ran the group program with output enabled; nothing is
-returned to the bus with an enabled writer unless processed in that pass.
+Two parts.
+
+Kernel side (thin): runs the dispatcher explorer of harness/c22_dispatcher.py
+(same state space, same real bytecode) and reports the C21 invariant set:
+re-activation touches exactly the writer command bytes, zeroes exactly their
+working counters, counts exactly the mismatching ones, all only in a pass that
+ran the group program with output enabled; nothing is returned to the bus with
+an enabled writer unless processed in that pass.
+
+User-space side: the real ``FastSyncGroup.run`` / ``SyncGroupBase.run`` /
+``update_devices`` / ``EtherCat.roundtrip_packet`` / ``sendloop`` run on the
+virtual loop for the same group layouts.  For every cyclic frame the master
+sends, the explorer decides what the dispatcher hands back to user space:
+the frame as the group program left it (odd loop counter, write datagrams
+enabled, outputs set - what really reaches user space every other pass), the
+frame untouched (even counter, still sterile), or nothing within the response
+time (the time-out path resends).  Oracle: every cyclic frame handed to the
+transport has all its write datagrams disabled (command NOP), parsed
+independently.  All answer sequences up to the cycle bound are enumerated.
 """
+import asyncio
+import contextlib
+import logging
+import struct
+
+from mc import bpfvm, core, ecparse, explore, fastsim, vloop
 from harness import c22_dispatcher as _x
+
+from ebpfcat.ebpfcat import SimpleEtherCat
 
 PROP = "C21"
 LEVEL = _x.LEVEL
 RULE = _x.RULE + ("; C21 judges every distinct dispatcher+group step of that "
-                  "space (frame before/after, wkc_errors, device run marker)")
+                  "space (frame before/after, wkc_errors, device run marker); "
+                  "user-space side: all sequences of {processed frame, "
+                  "untouched frame, no answer in time} over the cycle bound "
+                  "for every layout, every frame given to the transport "
+                  "judged")
+
+WRITE_CMDS = (2, 3, 5, 6, 8, 9, 11, 12)
+ANSWERS = ("processed", "untouched", "late")
+
+
+class Transport:
+    def __init__(self):
+        self.frames = []
+        self.inflight = []
+
+    def sendto(self, data, addr=None):
+        data = bytes(data)
+        self.frames.append(data)
+        self.inflight.append(data)
+
+
+class Ec(SimpleEtherCat):
+    """the real EtherCat; only the registration of the group's program in
+    the dispatcher's table (bpf system calls) is replaced"""
+    group_index = 5
+
+    @contextlib.contextmanager
+    def register_sync_group(self, sg):
+        yield self.group_index
+
+
+async def _nothing(*a, **kw):
+    return None
+
+
+@contextlib.asynccontextmanager
+async def _no_fmmu(*a, **kw):
+    yield 0
+
+
+def execute(ch, layout, cycles):
+    fastsim.reset_globals()
+    kernel = bpfvm.Kernel()
+    g = _x.build_group(layout, kernel, execute.seam)
+    sg = g.sg
+    index = _x.GROUP_INDEX[layout]
+    loop = vloop.VLoop()
+    obs = dict(frames=[], answers=[], error=None)
+    with loop:
+        ec = Ec("sim")
+        ec.group_index = index
+        ec.ethertype = _x.ETHERTYPE
+        ec.send_queue = asyncio.Queue()
+        tp = ec.transport = Transport()
+        sendtask = asyncio.ensure_future(ec.sendloop())
+        sg.ec = ec
+        for t in sg.terminals:
+            # the state machine and the FMMU set-up are C14's and C20's
+            t.to_operational = _nothing
+            t.set_state = _nothing
+            t.map_fmmu = _no_fmmu
+        task = asyncio.ensure_future(sg.run())
+        counter = [1]
+        try:
+            steps = 0
+            while len(obs["answers"]) < cycles and not task.done() \
+                    and steps < 200:
+                steps += 1
+                loop.run_until_idle()
+                if task.done():
+                    break
+                if not tp.inflight:
+                    if not loop.advance():
+                        break
+                    continue
+                frame = tp.inflight.pop(0)
+                a = ANSWERS[ch.choose(3, "answer")]
+                obs["answers"].append(a)
+                if a == "late":
+                    # nothing comes back: the response time passes
+                    if not loop.advance():
+                        break
+                    continue
+                back = bytearray(fastsim.ETH_HEADER + frame)
+                if a == "processed":
+                    back[_x.INDEX0] = counter[0] | 1
+                    counter[0] = (counter[0] + 2) & 0xff
+                    g.set_wkc_errors(1)
+                    vm = bpfvm.VM(kernel, g.insns, back)
+                    vm.run()
+                else:
+                    back[_x.INDEX0] = (counter[0] + 1) & 0xfe
+                loop.call_soon(ec.datagram_received,
+                               bytes(back[fastsim.ETH:]), None)
+            loop.run_until_idle()
+            if task.done() and not task.cancelled() and task.exception():
+                obs["error"] = repr(task.exception())[:200]
+        finally:
+            task.cancel()
+            sendtask.cancel()
+            loop.run_until_idle()
+            loop.shutdown()
+    obs["frames"] = list(tp.frames)
+    obs["index"] = index
+    obs["processed_seen"] = "processed" in obs["answers"]
+    return obs
+
+
+execute.seam = False
+
+
+def judge(layout, ch, obs, res):
+    case = dict(part="user-space", layout=layout, choices=list(ch.choices),
+                answers=obs["answers"])
+    if obs["error"]:
+        res.violation(case, "the sync group keeps running", obs["error"],
+                      sig=core.digest(["us-error"]),
+                      note="user space: sync group task ended")
+        return
+    for n, f in enumerate(obs["frames"]):
+        try:
+            _, dgs = ecparse.parse(f)
+        except ecparse.ParseError as e:
+            res.violation(case, "a well-formed frame", str(e),
+                          sig=core.digest(["us-parse"]),
+                          note="user space: malformed frame sent")
+            return
+        if struct.unpack_from("<i", f, 4)[0] != obs["index"]:
+            continue
+        live = [d.cmd for d in dgs[1:] if d.cmd in WRITE_CMDS]
+        if live:
+            res.violation(
+                dict(case, frame=n), "all write datagrams disabled (NOP) in "
+                "a frame leaving user space", dict(enabled_commands=live,
+                                                   frame=f.hex()[:80]),
+                sig=core.digest(["us-enabled"]),
+                note="user space: frame left with enabled write datagrams")
+            return
+
+
+def work(item, res):
+    layout, cycles = item
+    logging.disable(logging.WARNING)    # time-outs are part of the alphabet
+
+    def on_exec(ch, obs):
+        res.count("evaluations")
+        res.count("userspace_executions")
+        res.count("userspace_frames", len(obs["frames"]))
+        res.count("transitions", len(ch.trace))
+        if obs["processed_seen"] and len(obs["frames"]) >= 3:
+            res.nontrivial.add(core.digest(["us", layout, ch.choices]))
+        res.outcomes.add(("us", tuple(obs["answers"])[:3],
+                          len(obs["frames"])))
+        judge(layout, ch, obs, res)
+    explore.dfs(lambda ch: execute(ch, layout, cycles), 99, on_exec)
+    a = execute(explore.Chooser((0, 2, 0)), layout, cycles)
+    b = execute(explore.Chooser((0, 2, 0)), layout, cycles)
+    if a != b:
+        raise core.Internal("user-space half: non-deterministic execution")
 
 
 def run(ctx):
-    return _x.run_for(ctx, PROP)
+    res = _x.run_for(ctx, PROP)
+    layouts = _x.QUICK_LAYOUTS if ctx.quick else \
+        [l for l in _x.LAYOUTS if l != "w0r0"]
+    cycles = 6 if ctx.quick else 8
+    try:
+        _x.build_group(layouts[0], bpfvm.Kernel(), False)
+        execute.seam = False
+    except Exception:
+        execute.seam = True
+    r2 = core.pmap(ctx, work, [(l, cycles) for l in layouts], chunk=1)
+    res.merge(r2)
+    res.cov["userspace_cycles"] = cycles
+    res.cov["traces_validated_against_impl"] = \
+        res.cov.get("traces_validated_against_impl", 0) + \
+        r2.cov.get("userspace_executions", 0)
+    res.assumptions += [
+        "user-space side: what the dispatcher hands up is either the frame "
+        "the group program just processed (generated by running the real "
+        "group bytecode on the frame that was sent) or the sent frame "
+        "untouched; terminal state changes and FMMU set-up are replaced by "
+        "no-ops (C14, C20), the registration in the dispatcher's program "
+        "table by a fixed index"]
+    return res
 
 
 def replay(ctx, rep):
-    return _x.replay_for(ctx, rep, PROP)
+    c = rep["case"]
+    if c.get("part") != "user-space":
+        return _x.replay_for(ctx, rep, PROP)
+    res = core.Result()
+    ch = explore.Chooser(tuple(c["choices"]))
+    obs = execute(ch, c["layout"], len(c["choices"]))
+    print("answers", obs["answers"], "frames", len(obs["frames"]),
+          "error", obs["error"])
+    for f in obs["frames"]:
+        _, dgs = ecparse.parse(f)
+        print("  ", [d.cmd for d in dgs])
+    judge(c["layout"], ch, obs, res)
+    return res.violations
